@@ -468,7 +468,7 @@ class DynDiGraph(nx.DiGraph):
         >>> list(G.interactions_iter())
         [(0, 1), (1, 2), (2, 3)]
         """
-        seen = {}  # helper dict to keep track of multiply stored interactions
+        seen = {}  # helper dict: sources already listed (flattened view only)
         if nbunch is None:
             nodes_nbrs_succ = self._succ.items()
         else:
@@ -477,11 +477,13 @@ class DynDiGraph(nx.DiGraph):
         for n, nbrs in nodes_nbrs_succ:
             for nbr in nbrs:
                 if t is not None:
-                    if nbr not in seen and self.__presence_test(n, nbr, t):
+                    # a directed interaction is stored once: nothing to de-duplicate
+                    if self.__presence_test(n, nbr, t):
                         yield n, nbr, {"t": [t]}
                 else:
-                    if nbr not in seen:
-                        yield nbr, n, self._succ[n][nbr]
+                    # the flattened view reports a reciprocal pair once (first direction met)
+                    if not (nbr in seen and n in self._succ[nbr]):
+                        yield n, nbr, self._succ[n][nbr]
             seen[n] = 1
 
         del seen
